@@ -206,9 +206,13 @@ pub(super) fn serialize<'se, W: Write>(
     let mut has_plutus_v3 = false;
     let plutus_added_length = match &wit_set.plutus_scripts {
         Some(scripts) => {
-            has_plutus_v1 = scripts.has_version(&Language::new_plutus_v1());
-            has_plutus_v2 = scripts.has_version(&Language::new_plutus_v2());
-            has_plutus_v3 = scripts.has_version(&Language::new_plutus_v3());
+            // a field whose original bytes are kept is written even if it holds no script (e.g. `03 80`)
+            has_plutus_v1 = scripts.has_version(&Language::new_plutus_v1())
+                || raw_parts.and_then(|x| x.plutus_scripts_v1.as_ref()).is_some();
+            has_plutus_v2 = scripts.has_version(&Language::new_plutus_v2())
+                || raw_parts.and_then(|x| x.plutus_scripts_v2.as_ref()).is_some();
+            has_plutus_v3 = scripts.has_version(&Language::new_plutus_v3())
+                || raw_parts.and_then(|x| x.plutus_scripts_v3.as_ref()).is_some();
             (has_plutus_v1 as u64) + (has_plutus_v2 as u64) + (has_plutus_v3 as u64)
         },
         _ => 0,
